@@ -87,17 +87,34 @@ def shared_dir(*parts):
     return d
 
 
-def prune_builds(keep=3):
-    """Bound disk use: keep the `keep` most recently used tree keys."""
+def prune_builds(keep=4, min_age_s=6 * 3600):
+    """Bound disk use: drop build dirs of other tree keys that have not been used
+    for `min_age_s` (several checks / scratch trees may be in flight), keeping the
+    `keep` most recently used ones in any case."""
     try:
         ents = [e for e in os.listdir(BUILD_ROOT) if not e.startswith("_")]
     except FileNotFoundError:
         return
     cur = tree_key()
-    full = [(os.path.getmtime(os.path.join(BUILD_ROOT, e)), e) for e in ents if e != cur]
+    os.makedirs(os.path.join(BUILD_ROOT, cur), exist_ok=True)
+    stamp = os.path.join(BUILD_ROOT, cur, ".stamp")
+    with open(stamp, "w") as f:
+        f.write(str(time.time()))
+    full = []
+    for e in ents:
+        if e == cur:
+            continue
+        sp = os.path.join(BUILD_ROOT, e, ".stamp")
+        try:
+            m = os.path.getmtime(sp)
+        except OSError:
+            m = os.path.getmtime(os.path.join(BUILD_ROOT, e))
+        full.append((m, e))
     full.sort(reverse=True)
-    for _, e in full[keep - 1:]:
-        shutil.rmtree(os.path.join(BUILD_ROOT, e), ignore_errors=True)
+    now = time.time()
+    for m, e in full[keep - 1:]:
+        if now - m > min_age_s:
+            shutil.rmtree(os.path.join(BUILD_ROOT, e), ignore_errors=True)
 
 
 @contextlib.contextmanager
